@@ -422,11 +422,12 @@ prop('C20', level='other', units=[PL + 'plot_cyclepoints_array', PL + 'plot_cycl
                  'Bycycle.plot: unfitted -> ValueError; fitted -> the summary plot receives the model\'s own table, signal, rate and '
                  'thresholds and the caller\'s limits, figure size and switches, each in its right position (the summary plot itself is '
                  'only logged here: assumed to return None, raise nothing and change nothing). '
-                 'plot_burst_detect_param without x-limits, interp=True (both centrings, two of the parameters): the panel\'s marker '
-                 'series is the parameter\'s per-cycle values at the cycle centres (sample / fs, the centre column of the table\'s own '
-                 'centring), the threshold line spans the time axis at the given threshold; all indexing in range given the table '
-                 'invariant (side extrema inside the signal). '
-                 'plot_burst_detect_summary without x-limits (both centrings, with and without the parameter panels, interp=True, two '
+                 'plot_burst_detect_param without x-limits (both centrings): with interp=True the panel\'s marker series is the '
+                 'parameter\'s per-cycle values at the cycle centres (sample / fs, the centre column of the table\'s own centring); '
+                 'with interp=False it is, per cycle, the value drawn as a step from the opening to the closing side extremum (loop '
+                 'invariant over the two arrays that every iteration re-binds to longer ones); the threshold line spans the time '
+                 'axis at the given threshold; all indexing in range given the table invariant (side extrema inside the signal). '
+                 'plot_burst_detect_summary without x-limits (both centrings, with and without the parameter panels, both interp settings, two '
                  'thresholds given): the sample mask handed to plot_bursts has one entry per sample, the time axis is sample / fs, '
                  'and the mask is true on ALL samples of every cycle labelled is_burst (from its opening to its closing side extremum, '
                  'inclusive) and ONLY on samples of such cycles (loop invariant over the bursting rows, lifted to the whole table '
@@ -435,7 +436,7 @@ prop('C20', level='other', units=[PL + 'plot_cyclepoints_array', PL + 'plot_cycl
                  'The extra keyword arguments of the plot functions (xlabel, ylabel, colors / color, figsize) are part of every typed '
                  'case, each present or absent (colours as a pair of opaque values): they are popped and handed on without touching '
                  'the marker series. '
-                 'Bounded only: x-limits off the grid, the burst summary and the parameter panels under x-limits, interp=False, other extra keywords, the floating-point side of the grid (D12 - D14), plot_burst_detect_summary / '
+                 'Bounded only: x-limits off the grid, the burst summary and the parameter panels under x-limits, other extra keywords, the floating-point side of the grid (D12 - D14), plot_burst_detect_summary / '
                  '_param / Bycycle.plot (burst mask, parameter panels, threshold lines): the arguments handed to the drawing routines '
                  'are intercepted on corpus tables x sample-grid windows incl. low-truncating grid points and windows on cycle '
                  'boundaries; rendered artists are not inspected.')
